@@ -341,6 +341,7 @@ class Component(BaseObject):
         layer = self.layer
         layer.addObserver(self, "layerGlyphNameChangedNotificationCallback", "Layer.GlyphNameChanged")
         layer.addObserver(self, "layerGlyphAddedNotificationCallback", "Layer.GlyphAdded")
+        layer.addObserver(self, "layerGlyphDeletedNotificationCallback", "Layer.GlyphDeleted")
 
     def _endLayerObservations(self):
         layer = self.layer
@@ -348,6 +349,8 @@ class Component(BaseObject):
             return
         layer.removeObserver(self, "Layer.GlyphNameChanged")
         layer.removeObserver(self, "Layer.GlyphAdded")
+        if layer.hasObserver(self, "Layer.GlyphDeleted"):
+            layer.removeObserver(self, "Layer.GlyphDeleted")
 
     def baseGlyphNameChangedNotificationCallback(self, notification):
         newName = notification.data["newValue"]
@@ -372,6 +375,13 @@ class Component(BaseObject):
             return
         self._endBaseGlyphObservations()
         self._beginLayerObservations()
+
+    def layerGlyphDeletedNotificationCallback(self, notification):
+        # the base glyph is gone now (it was still there when
+        # Layer.GlyphWillBeDeleted was posted)
+        name = notification.data["name"]
+        if name != self.baseGlyph:
+            return
         self.postNotification("Component.BaseGlyphDataChanged")
 
     def layerGlyphAddedNotificationCallback(self, notification):
